@@ -234,7 +234,9 @@ class Run:
     def outputs_for(self, t):
         kind, node = self.node_attr(t["nid"]) or (None, {})
         outs = (node or {}).get("outputs", {}) or {}
-        return {k: 1 for k in outs}
+        o = {k: 1 for k in outs}
+        o.update((node or {}).get("_answer") or {})  # scenario hint: what the client answers this act with
+        return o
 
     def scripted_action(self, i):
         I = self.I
